@@ -1256,7 +1256,16 @@ def generate(unit, template_path, canary=False, extra_fns=(), drop_hints=()):
                     arm_rx = None
                 if arm_rx is not None:
                     hits = []
-                    for h in re.finditer(arm_rx, fmask):
+                    amask = fmask
+                    if arm_rx.startswith("(?#chars)"):
+                        # arm patterns that ARE character literals (`'.' =>`): match against a mask in which char literals keep their text
+                        ftext_ = src.text[bo:bc + 1]
+                        am_ = list(fmask)
+                        for cm_ in re.finditer(r"'(?:\\(?:u\{[0-9a-fA-F]+\}|x[0-9a-fA-F]{2}|.)|[^'\\])'", ftext_):
+                            if fmask[cm_.start()] == "'" and fmask[cm_.end() - 1] == "'":
+                                am_[cm_.start():cm_.end()] = list(ftext_[cm_.start():cm_.end()])
+                        amask = "".join(am_)
+                    for h in re.finditer(arm_rx, amask):
                         # keep only real arm patterns: after the pattern (and its `{...}` if the regex ends in `{`) comes `=>`
                         e = h.end()
                         ob = fmask.find("{", h.start(), h.end())
